@@ -890,3 +890,169 @@ def add_merge(reg):
     reg.method_bindings[("IH5Record", "__getitem__")] = lambda cx, rec, k: OvlNode("source")
     reg.method_bindings[("IH5UserBlock", "copy")] = ub_copy
     return [reg.add(MergeFiles())]
+
+
+# ------------------------------------------------------------------------------------------------
+# IH5Record.__init__: open-mode decision table (C03)
+
+
+def open_modes_from_source():
+    """The six documented modes, read from util/types.py (`OpenMode = Literal[...]`)."""
+    import ast as _ast
+
+    mi = ModuleInfo.load(SRC / "util/types.py")
+    for st in mi.tree.body:
+        if isinstance(st, _ast.Assign) and isinstance(st.targets[0], _ast.Name) and st.targets[0].id == "OpenMode":
+            sl = st.value.slice
+            return [e.value for e in sl.elts]
+    raise Unsupported("OpenMode literal not found")
+
+
+class ObjDict(SVal):
+    """obj.__dict__ of a python-level object"""
+
+    def __init__(self, obj):
+        self.obj = obj
+
+    def meth_update(self, cx, other):
+        if not isinstance(other, ObjDict):
+            raise Unsupported("__dict__.update(non-__dict__)")
+        self.obj.fields.update(other.obj.fields)
+        cx.note_write(("obj", self.obj.name, "__dict__"), self.obj)
+
+
+class InitModes(FnSpec):
+    """Callee contracts are replaced here by call-logging stubs: the table says WHICH of _create/_open/create_patch run."""
+
+    file = "ih5/record.py"
+    qual = "IH5Record.__init__"
+    props = ("C03",)
+
+    def init(self):
+        self.bindings["Path"] = path_ctor
+        self.bindings["OPEN_MODES"] = open_modes_from_source()
+        self.inline |= {"IH5Record._has_writable"}
+
+    def setup(self, cx):
+        rec = SObj("IH5Record", name="self")
+        rec.fields["_allow_patching"] = True  # set by __new__
+        rec.fields["__files__"] = []
+        by_list = cx.choose(2) == 1
+        a = A(self=rec, mode=SStr(z3.String("mode")), by_list=by_list, __kwargs__={})
+        if by_list:
+            a.record = SSeq.fresh(STR, "given_paths")
+        else:
+            a.record = PathVal(z3.String("record_path"))
+        a.found = SSeq.fresh(STR, "found_files")
+        a.opened_writable = z3.Bool("newest_is_uncommitted")  # state of the record returned by _open(reopen_incomplete_patch=True)
+        return a
+
+    def requires(self, cx, a):
+        r = [("mode-non-empty", z3.Length(a.mode.t) > 0)]
+        if a.by_list:
+            r.append(("file-list-non-empty", a.record.n > 0))  # an empty explicit list is outside the property (it hits an unbound local in the real code)
+        return r
+
+    # stubs -----------------------------------------------------------------
+    def stub_rec(self, cx, a, how):
+        r = SObj("IH5Record", name="ret")
+        r.fields["_allow_patching"] = True
+        r.fields["_closed"] = False
+        L = SSeq.fresh(TRef("H5File"), "ret_files")
+        cx.assume(L.n > 0)
+        r.fields["__files__"] = L
+        r.fields["_ublocks"] = SMap.fresh(TPath(), TRef("IH5UserBlock"), "ret_ublocks")
+        r.how = how
+        return r
+
+    def calls(self, cx):
+        return [e for e in cx.fx if e[0] == "call"]
+
+    def ensures(self, cx, a, res):
+        m = a.mode.t
+        eq = lambda s: m == z3.StringVal(s)  # noqa: E731
+        calls = self.calls(cx)
+        names = [c[1] for c in calls]
+        out = []
+        n_given = a.record.n if a.by_list else None
+        files_avail = (n_given > 0) if a.by_list else (a.found.n > 0)
+        creating = z3.Or(eq("w"), eq("w-"), eq("x"))
+        out.append(("known-mode", z3.Or(*[eq(s) for s in open_modes_from_source()]), "unknown modes are refused"))
+        # which primitive runs
+        if "_create" in names:
+            c = calls[names.index("_create")]
+            trunc = c[2]
+            out.append(("create-only-when-asked", z3.Or(creating, z3.And(eq("a"), z3.Not(files_avail))), "a record is created only by w / w- / x, or by 'a' when absent"))
+            trunc_t = trunc.t if isinstance(trunc, SBool) else (z3.BoolVal(trunc) if isinstance(trunc, bool) else trunc)
+            out.append(("only-w-replaces", trunc_t == eq("w"), "only 'w' replaces an existing record; 'x'/'w-' never touch one (mode 'x' create fails if it exists)"))
+            out.append(("nothing-else", z3.BoolVal(names == ["_create"] or names == ["find_files", "_create"]), "creation does not open or patch anything else"))
+        else:
+            out.append(("opened-existing", z3.And(z3.Or(eq("r"), eq("r+"), eq("a")), files_avail), "r / r+ / a open the existing files"))
+            opens = [c for c in calls if c[1] == "_open"]
+            out.append(("one-open", z3.BoolVal(len(opens) == 1), "the record is opened once"))
+            if len(opens) == 1:
+                rw = opens[0][2]
+                rw_t = rw.t if isinstance(rw, SBool) else z3.BoolVal(bool(rw))
+                out.append(("uncommitted-patch-continued-only-when-writable-mode", rw_t == z3.Not(eq("r")), "'r' never reopens an uncommitted patch writable; 'r+'/'a' continue it"))
+            ap = a.self.fields.get("_allow_patching")
+            ap_t = ap.t if isinstance(ap, SBool) else z3.BoolVal(bool(ap))
+            out.append(("r-is-strictly-read-only", ap_t == z3.Not(eq("r")), "'r' disables creating, committing and discarding patches"))
+            made_patch = "create_patch" in names
+            out.append(("new-patch-iff-writable-mode-and-fully-committed", z3.BoolVal(made_patch) == z3.And(z3.Not(eq("r")), z3.Not(a.opened_writable)), "'r+'/'a' start a new patch exactly when the newest container is already committed"))
+        return out
+
+    def raises(self, cx, a):
+        m = a.mode.t
+        eq = lambda s: m == z3.StringVal(s)  # noqa: E731
+        known = z3.Or(*[eq(s) for s in open_modes_from_source()])
+        creating = z3.Or(eq("w"), eq("w-"), eq("x"))
+        files_avail = (a.record.n > 0) if a.by_list else (a.found.n > 0)
+        return {
+            "ValueError": z3.Or(z3.Not(known), z3.And(z3.BoolVal(a.by_list), creating)),
+            "FileNotFoundError": z3.And(z3.Or(eq("r"), eq("r+")), z3.Not(files_avail)),
+        }
+
+    def on_raise(self, cx, a, exc):
+        bad = [c for c in self.calls(cx) if c[1] != "find_files"]
+        return [("refused-without-effect", z3.BoolVal(not bad), "a refused open neither creates nor opens nor patches anything")]
+
+
+def add_init_modes(reg):
+    spec = InitModes()
+
+    def _create(cx, rec, path, truncate=False):
+        cx.effect("call", "_create", truncate)
+        return spec.stub_rec(cx, cx.run_args, "create")
+
+    def _open(cx, rec, paths, reopen_incomplete_patch=False, **kw):
+        cx.effect("call", "_open", reopen_incomplete_patch)
+        r = spec.stub_rec(cx, cx.run_args, "open")
+        a = cx.run_args
+        rw = reopen_incomplete_patch.t if isinstance(reopen_incomplete_patch, SBool) else z3.BoolVal(bool(reopen_incomplete_patch))
+        L = r.fields["__files__"]
+        last_mode = SRef("H5File", L.at_term(L.n - 1)).py_getattr(cx, "mode").t
+        cx.assume(last_mode == z3.If(z3.And(rw, a.opened_writable), z3.StringVal("r+"), z3.StringVal("r")))  # OpenRecord: newest-writable-iff-uncommitted-and-requested
+        return r
+
+    def find_files(cx, rec, path):
+        cx.effect("call", "find_files")
+        return cx.run_args.found.snapshot()
+
+    def create_patch(cx, rec):
+        cx.effect("call", "create_patch")
+
+    reg.method_bindings[("IH5Record", "_create")] = _create
+    reg.method_bindings[("IH5Record", "_open")] = _open
+    reg.method_bindings[("IH5Record", "find_files")] = find_files
+    reg.method_bindings[("IH5Record", "create_patch")] = create_patch
+    reg.method_bindings[("IH5Record", "super.__init__")] = lambda cx, obj, *a, **k: None
+    reg.attr_bindings[("IH5Record", "__dict__")] = lambda cx, o: ObjDict(o)
+    orig_setup = spec.setup
+
+    def setup(cx):
+        a = orig_setup(cx)
+        cx.run_args = a
+        return a
+
+    spec.setup = setup
+    return spec
